@@ -51,6 +51,14 @@ def handle(p):
         out = np.asarray(out)
         if out.dtype.kind != "u":
             return {"raise": f"dtype:{out.dtype}"}
-        return {"width": out.dtype.itemsize * 8, "codes": [int(v) for v in out.reshape(-1)]}
+        res = {"width": out.dtype.itemsize * 8, "codes": [int(v) for v in out.reshape(-1)]}
+        if kind == "sar0":
+            # the noise-free converter on the same frame (zero noise must reproduce it exactly)
+            from pyxel.models.readout_electronics.sar_adc import apply_sar_adc
+            with np.errstate(all="ignore"):
+                tw = apply_sar_adc(signal_2d=xs.copy(), num_rows=1, num_cols=xs.shape[1],
+                                   min_volt=vmin, max_volt=vmax, adc_bits=bits)
+            res["twin"] = [int(v) for v in np.asarray(tw).reshape(-1)]
+        return res
     except Exception as ex:  # noqa: BLE001
         return {"raise": type(ex).__name__, "msg": str(ex)[:200]}
